@@ -351,8 +351,20 @@ def run_replays(check: Check, findings: List[dict], lines: List[str]):
     return n, violations, sorted(still_open)
 
 
+def _no_tqdm_monitor():
+    """tqdm starts a monitor thread the first time a bar is created (sqlfluff's lint_paths does, even when the
+    bar is disabled); a thread in the parent makes the forked shard workers deadlock on inherited locks."""
+    try:
+        import tqdm
+
+        tqdm.tqdm.monitor_interval = 0
+    except Exception:
+        pass
+
+
 def main(argv=None):
     argv = list(sys.argv[1:] if argv is None else argv)
+    _no_tqdm_monitor()
     if not argv:
         print("usage: run Cnn quick|thorough | run Cnn --replay FILE", file=sys.stderr)
         return 2
